@@ -468,8 +468,10 @@ But this destroys the signal, which is complex.
     tmp_axis = tuple([-i - 1 for i in range(len(axis))])
     signal = np.moveaxis(signal, axis, tmp_axis)
     shape = signal.shape
-    working_shape = tuple(
-        [np.prod(shape[:-len(tmp_axis)]), np.prod(shape[-len(tmp_axis):])])
+    working_shape = tuple([
+        np.prod(shape[:-len(tmp_axis)], dtype=np.int64),
+        np.prod(shape[-len(tmp_axis):], dtype=np.int64),
+    ])
     signal = np.reshape(signal, working_shape)
 
     if quantile >= 0:
